@@ -593,7 +593,7 @@ OTHER_UNITS = ["m", "cm", "km", "mm", "s", "min", "h", "d"]
 
 class C15:
     prop = "C15"
-    expected_faults = ["F1.lookahead", "F1.rejected_lookup", "F7.interrupt"]
+    expected_faults = ["F1.lookahead", "F1.rejected_lookup", "F2.peer_exception", "F7.interrupt", "F7.interrupt_sweep_point"]
 
     def draw_cfg(self, rng, tier):
         world = rng.choices(["W-SYN", "W-SIMPLE", "W-POSC"], weights=[60, 15, 25])[0]
